@@ -147,11 +147,19 @@ def run(ctx, only_cases=None):
         sizes = [1 << 20, 16777216, 16777217, 64 << 20] + ([512 << 20] if thorough else [])
         bombs = [{"mode": "bomb", "ty": ty, "inflated": s, "cuts": ctx.rng.choice([[], [1, 1, 1, 1, 1, 4096]])}
                  for s in sizes for ty in ((0x60, 0x50, 0x41) if thorough else (0x60,))]
+        bombs += [{"mode": "bomb", "ty": ty, "inflated": n, "badjson": True, "cuts": []} for ty in (0x50, 0x51) for n in ((16777216, 1 << 20, 16777217) if thorough or ty == 0x50 else (16777216,))]
         disp = dispatch_cases(ctx.rng, 2000 if thorough else 200)
     # the same hostile streams end to end through the adapter's real per-connection read loop
     loops = [dict(c, mode="loop") for c in streams[:: (2 if thorough else 5)]] if only_cases is None else [c for c in only_cases if c["mode"] == "loop"]
     l_out = vlib.run_harness(binary, loops, timeout=1500) if loops else []
-    retain = retain_cases(ctx.rng, 6000 if thorough else 1500) if only_cases is None else [c for c in only_cases if c["mode"] == "retain"]
+    retain = retain_cases(ctx.rng, 6000 if thorough else 1500) if only_cases is None else [c for c in only_cases if c["mode"] in ("retain", "stall")]
+    if only_cases is None:
+        # a peer that never reads the server's answers: its own dispatch may stall, the server must not
+        retain += [{"mode": "stall", "ty": 0x03, "payload": ""}, {"mode": "stall", "ty": 0x43, "payload": ""},
+                   {"mode": "stall", "ty": 0x01, "payload": b'{"client_id":0,"protocol":"tcp"}'.hex()},
+                   {"mode": "stall", "ty": 0x20, "payload": b'{"tunnel_id":"t","mapping_id":"m"}'.hex()}]
+        retain += [{"mode": "stall", "ty": 0x10, "payload": "",
+                    "cmd": {"CommandType": ct, "CommandId": "s", "Token": "", "SenderId": "", "ReceiverId": "", "CommandBody": "{}"}} for ct in (13, 72, 90, 120)]
     r_out = vlib.run_harness(binary, retain, timeout=1500) if retain else []
     s_out = vlib.run_harness(binary, streams, timeout=1500) if streams else []
     for o in s_out:
@@ -168,7 +176,9 @@ def run(ctx, only_cases=None):
             bad = "dispatcher accepted a packet of unhandled type %#x without an error" % c["ty"]
         elif c["mode"] == "bomb" and c["inflated"] > 16777216 and any(x["ok"] and x["ty"] == c["ty"] for x in o["obs"]):
             bad = "a compressed body inflating to %d bytes (> MaxPacketBodySize) was accepted" % c["inflated"]
-        elif c["mode"] == "bomb" and c["inflated"] <= 16777216 and not (len(o["obs"]) == 3 and o["obs"][0]["ok"] and o["obs"][1]["ok"]):
+        elif c["mode"] == "bomb" and c.get("badjson") and any(x["ok"] and x["ty"] == c["ty"] for x in o["obs"]):
+            bad = "a command-carrying frame whose body is not JSON was decoded as a command"
+        elif c["mode"] == "bomb" and not c.get("badjson") and c["inflated"] <= 16777216 and not (len(o["obs"]) == 3 and o["obs"][0]["ok"] and o["obs"][1]["ok"]):
             bad = "a compressed body inflating to %d bytes (<= MaxPacketBodySize) was not decoded, or the following packet lost alignment" % c["inflated"]
         if bad:
             nfail += 1
